@@ -116,6 +116,19 @@ import collections.abc  # noqa: E402
 collections.abc.Sequence.register(_IntSeq)
 
 
+class _SizedView:
+    """Sized and re-iterable, no Sequence (no indexing), like a dict view or a set."""
+
+    def __init__(self, items):
+        self._items = list(items)
+
+    def __len__(self):
+        return len(self._items)
+
+    def __iter__(self):
+        return iter(self._items)
+
+
 class _ArrayLike:
     """A sized, iterable, sliceable container with the truth-value rules of a numeric array: ambiguous (ValueError) for
     more than one element, the truth of the element for exactly one (taken to be 0 here), False when empty."""
@@ -175,7 +188,7 @@ def make_input(call, ci, sh):
     if form == "tuple":
         return tuple(items)
     if form == "range_like":
-        return dict.fromkeys(items).keys()       # a sized, re-iterable view that is no Sequence
+        return _SizedView(items)                 # a sized, re-iterable view that is no Sequence
     if form == "deque":
         import collections
         return collections.deque(items)         # a Sequence that cannot be sliced
